@@ -69,7 +69,7 @@ fn run(prop: &str, tier: &str) -> i32 {
 }
 
 fn main() {
-    mc::world::silence_panics();
+    mc::world::guarded_main(|| {
     let a = mc::parse_args();
     let code = if a.cmd == "replay" {
         let rf = load_replay(a.path.as_deref().unwrap_or(""));
@@ -88,5 +88,6 @@ fn main() {
     } else {
         run(&a.cmd, &a.tier)
     };
-    std::process::exit(code);
+    code
+    })
 }
